@@ -39,6 +39,12 @@ THEOREMS = [
     "PorepyVerif.C26.identity_update_valid",
     "PorepyVerif.C26.secondary_update_valid",
     "PorepyVerif.C26.matching_init_sideInv",
+    "PorepyVerif.C26.sideOrZero_sums",
+    "PorepyVerif.C26.primary_valid_of_blocks",
+    "PorepyVerif.C26.face_update_valid",
+    "PorepyVerif.C26.step_mortar_stack",
+    "PorepyVerif.C26.step_secondary_stack",
+    "PorepyVerif.C26.step_primary_stack",
 ]
 LEAN_MODULES = ["PorepyVerif.C26.Props"]
 AUDIT = "PorepyVerif/C26/Audit.lean"
@@ -61,8 +67,8 @@ TRUSTED = [
     "modelled, not verified: the geometric identification inside match_grids_along_1d_mortar (which faces of the old and new host lie on the "
     "fracture and on which side, node sorting, uniquify_point_set); the harness extracts the fracture faces, their side and their parameter "
     "interval from the grids independently and the model matches them per side (faceMatch)",
-    "not proved in Lean: that faceMatch (update_primary's old-face x new-face matrices) satisfies the hypotheses of ValidUpd.primary; these "
-    "hypotheses are the ones side_history_invariant needs, they are checked only through correspondence and oracle",
+    "hypotheses of face_update_valid (the fracture faces of one side tessellate the same segment in the old and the new host, distinct face "
+    "indices, all listed old faces covered) are properties of the generated grids, not proved about split_grid / cart_grid",
     "not proved in Lean: that initBase (index bookkeeping of _init_projections) yields matchingSide blocks per side; compared by correspondence",
     "match_2d / shapely triangulation overlaps (2-D mortar grids): oracle only, thorough tier",
 ]
@@ -73,8 +79,9 @@ EXPLANATION = ("CORE (partial): the model covers _init_projections, _set_project
                "perform; the stored stacked matrices are updated side by side (block-diagonal times stack = stack of products); for one side and "
                "EVERY history of valid updates the invariant (unit row sums of averaged maps, unit column sums of integrated maps on covered "
                "faces, support on covered faces) holds; the four mortar-to-grid maps are the transposes of the grid-to-mortar maps after every "
-               "history although update_secondary / update_primary refresh one pair only. Not proved: that update_primary's face matching "
-               "satisfies the validity hypotheses (geometry), floating point. Correspondence compares all eight matrices densely after every "
+               "history although update_secondary / update_primary refresh one pair only; the matrices of match_1d / "
+               "match_grids_along_1d_mortar (as modelled) are valid updates whenever the grids tessellate the same segment. Not proved: that "
+               "initBase yields matching per-side blocks, the geometric face identification, floating point. Correspondence compares all eight matrices densely after every "
                "step with tolerance 1e-10; the oracle checks the property (and that cell measures are mapped to cell measures) on the real objects.")
 ASSUMPTIONS = [
     "fractures are straight; 1-D mortar grids (2-D mortar grids through match_2d are covered by the oracle only)",
@@ -133,7 +140,7 @@ def _gen_syn(rng, tier):
                 sp = _side_spec(rng)
                 case["steps"].append({"op": "mortar", "sides": {str(s): sp for s in range(nsides)}})
             else:
-                case["steps"].append({"op": "mortar", "sides": {str(s): _side_spec(rng) for s in which}})
+                case["steps"].append({"op": "mortar", "sides": {str(s): _side_spec(rng) for s in which}, "rev_order": rng.random() < 0.3})
         else:
             case["steps"].append(dict(_side_spec(rng), op="secondary"))
     return case
@@ -144,10 +151,10 @@ _RES = [2, 3, 4, 6, 12]
 
 def _gen_mdg(rng, tier):
     Lx = 12
-    ny = rng.choice([2, 2, 4])
+    ny = rng.choice([2, 4, 4])
     Ly = 4
     axis = rng.choice([0, 0, 1])  # 0: fractures along x (the long direction), 1: the whole picture transposed
-    nfr = rng.choice([1, 1, 2])
+    nfr = rng.choice([1, 2])
     if ny == 2:
         nfr = 1
     cands = [(0, 12), (0, 6), (6, 12), (4, 8), (0, 4), (4, 12), (3, 9), (2, 10), (0, 8), (0, 3), (6, 9)]
@@ -165,7 +172,7 @@ def _gen_mdg(rng, tier):
         k = rng.randrange(nfr)
         if r < 0.35:
             which = [s for s in (0, 1) if rng.random() < 0.75] or [rng.randrange(2)]
-            case["steps"].append({"op": "mortar", "intf": k, "sides": {str(s): _side_spec(rng, 7) for s in which}})
+            case["steps"].append({"op": "mortar", "intf": k, "sides": {str(s): _side_spec(rng, 7) for s in which}, "rev_order": rng.random() < 0.3})
         elif r < 0.6:
             if rng.random() < 0.4:
                 case["steps"].append({"op": "secondary", "intf": k, "ratio": rng.choice([2, 3, 4])})
@@ -215,6 +222,12 @@ def _grid1d(p0, p1, spec):
     g.nodes = nodes
     g.compute_geometry()
     return g
+
+
+def _ordered(st):
+    """(side, spec) pairs of a mortar step in the order the new side grids are handed to the code"""
+    items = sorted(st["sides"].items())
+    return items[::-1] if st.get("rev_order") else items
 
 
 def _cells_param(g, origin, direction):
@@ -308,7 +321,7 @@ class _Trace:
         for k, st in enumerate(c["steps"]):
             try:
                 if st["op"] == "mortar":
-                    new = {SIDES[int(s)]: _grid1d(p0, p1, sp) for s, sp in st["sides"].items()}
+                    new = {SIDES[int(s)]: _grid1d(p0, p1, sp) for s, sp in _ordered(st)}
                     self.ops.append({"op": "mortar", "sides": [(_cells_param(new[S], p0, self.direction) if S in new else None) for S in SIDES]})
                     intf.update_mortar(new, 1e-6)
                 else:
@@ -400,7 +413,7 @@ class _Trace:
                     p0 = np.zeros(3)
                     p1 = np.zeros(3)
                     p0[ax], p0[1 - ax], p1[ax], p1[1 - ax] = f["a"], f["c"], f["b"], f["c"]
-                    new = {SIDES[int(s)]: _grid1d(p0, p1, sp) for s, sp in st["sides"].items()}
+                    new = {SIDES[int(s)]: _grid1d(p0, p1, sp) for s, sp in _ordered(st)}
                     self.ops.append({"op": "mortar", "intf": st["intf"], "sides": [(_cells_param(new[S], None, ax) if S in new else None) for S in SIDES]})
                     mdg.replace_subdomains_and_interfaces(interface_map={intf: new})
                 elif st["op"] == "secondary":
@@ -564,7 +577,7 @@ def _near(v, target):
     return v.size == 0 or float(np.max(np.abs(v - target))) <= OTOL
 
 
-def _check_intf(intf, side_faces, sec_vol, face_area):
+def _check_intf(intf, side_faces, sec_vol, face_area, geo=None):
     """All statements of the property for one interface.  side_faces: None (unknown) or a list of candidate covered
     primary face sets (one per geometric side); sec_vol / face_area: measures of secondary cells / primary faces
     (None if the primary has no geometry).  Returns None or (check, matrix, detail)."""
@@ -634,6 +647,11 @@ def _check_intf(intf, side_faces, sec_vol, face_area):
             if not hit or hit[0] in used:
                 return ("support", "primary_to_mortar_int", f"side {pos}: maps from faces {sorted(supp)[:12]}, not from the faces of one side of the fracture {[sorted(f)[:12] for f in side_faces]}")
             used.append(hit[0])
+            if geo is not None:
+                # the geometric side of the fracture a mortar side lies on never changes
+                if geo.get(pos, hit[0]) != hit[0]:
+                    return ("side-swap", "primary_to_mortar_int", f"side {pos} now maps from the faces on the other side of the fracture")
+                geo[pos] = hit[0]
         cov = sorted(supp)
         if set(np.where(np.abs(Pa).sum(0) > 0)[0].tolist()) - supp:
             return ("support", "primary_to_mortar_avg", f"side {pos}: averaged map reaches faces outside the covered ones")
@@ -664,7 +682,7 @@ def _stored_duplicates(intf):
 def _oracle_hook(case, res):
     """hook for _Trace: checks the property after construction and after every step; the first failure is kept in
     res['r'] (the run continues so that the same run also serves as impl_run)"""
-    state = {"dup_before": {}}
+    state = {"dup_before": {}, "geo": {}}
 
     def hook(label, ctx):
         if "r" in res:
@@ -687,7 +705,7 @@ def _oracle_hook(case, res):
                     return False
                 items.append((k, intf, sides, sec.cell_volumes, g2.face_areas))
         for k, intf, side_faces, sec_vol, face_area in items:
-            r = _check_intf(intf, side_faces, sec_vol, face_area)
+            r = _check_intf(intf, side_faces, sec_vol, face_area, state["geo"].setdefault(k, {}) if case["kind"] == "mdg" else None)
             if r is not None:
                 key = f"{case['kind']}:{op}:{r[0]}:{r[1]}"
                 if op == "primary" and state["dup_before"].get(k):
